@@ -357,6 +357,12 @@ func Body(s *simrt.Sim, tier string, o Options) {
 	defer cancel()
 	var runErr error
 	runDone := false
+	// Run may be handed a context that has already ended: readiness must still resolve (one way or the other)
+	preCancelled := s.Choose(8, "precancel") == 0
+	if preCancelled {
+		cancel()
+		s.Fault("ctx.cancel")
+	}
 	s.Go("runner", func() {
 		runErr = sp.Run(ctx)
 		runDone = true
@@ -412,6 +418,15 @@ func Body(s *simrt.Sim, tier string, o Options) {
 		s.Fail("readiness-deadlock", "Ready / GetX509SVID did not return after the initial fetch\n"+s.Dump())
 		return
 	}
+	if len(issues) == 0 {
+		// no fetch was attempted (only conceivable with a context that had ended already): nobody may have been given an SVID
+		for i, g := range gets {
+			if g.err == nil {
+				s.Fail("svid-after-failed-fetch", fmt.Sprintf("GetX509SVID #%d returned serial %d although no certificate was ever requested", i, g.serial))
+			}
+		}
+		return
+	}
 	first := issues[0]
 	initialOK := first.good()
 	for i, g := range gets {
@@ -434,6 +449,12 @@ func Body(s *simrt.Sim, tier string, o Options) {
 	if !initialOK {
 		if !s.WaitUntil("run.ret", 30*time.Second, func() bool { return runDone }) || runErr == nil {
 			s.Fail("run-after-failed-fetch", fmt.Sprintf("the initial fetch failed but Run did not return an error (returned=%v err=%v)", runDone, runErr))
+		}
+		return
+	}
+	if preCancelled {
+		if !s.WaitUntil("run.ret", 30*time.Second, func() bool { return runDone }) {
+			s.Fail("run-not-returned-after-cancel", "Run was given a context that had already ended and did not return\n"+s.Dump())
 		}
 		return
 	}
